@@ -200,6 +200,55 @@ impl AzksElementSet {
     }
 }
 
+/// Thin wrappers over the crate-private [AzksElementSet], so that an external verification
+/// harness can compare its binary-searchable and unsorted representations. Only compiled with
+/// the `verif_hooks` feature; adds no behaviour.
+#[cfg(feature = "verif_hooks")]
+pub mod verif_hooks {
+    use super::{AzksElement, AzksElementSet, Configuration, NodeLabel};
+
+    /// A set of elements in one of its two representations
+    pub struct ElementSet(AzksElementSet);
+
+    impl ElementSet {
+        /// Builds the set the way insertion does (sorted and binary-searchable if all labels have equal length)
+        pub fn from(nodes: Vec<AzksElement>) -> Self {
+            Self(AzksElementSet::from(nodes))
+        }
+
+        /// Builds the set in its unsorted representation, whatever the labels are
+        pub fn from_unsorted(nodes: Vec<AzksElement>) -> Self {
+            Self(AzksElementSet::Unsorted(nodes))
+        }
+
+        /// Whether this set is in the binary-searchable representation
+        pub fn is_binary_searchable(&self) -> bool {
+            matches!(self.0, AzksElementSet::BinarySearchable(_))
+        }
+
+        /// The elements of the set
+        pub fn elements(&self) -> Vec<AzksElement> {
+            self.0.to_vec()
+        }
+
+        /// See AzksElementSet::partition
+        pub fn partition(self, prefix_label: NodeLabel) -> (Self, Self) {
+            let (left, right) = self.0.partition(prefix_label);
+            (Self(left), Self(right))
+        }
+
+        /// See AzksElementSet::get_longest_common_prefix
+        pub fn get_longest_common_prefix<TC: Configuration>(&self) -> NodeLabel {
+            self.0.get_longest_common_prefix::<TC>()
+        }
+
+        /// See AzksElementSet::contains_prefix
+        pub fn contains_prefix(&self, prefix_label: &NodeLabel) -> bool {
+            self.0.contains_prefix(prefix_label)
+        }
+    }
+}
+
 /// Parallelism configuration for [Azks]
 #[derive(Copy, Clone, Debug, Eq, PartialEq, Hash, PartialOrd, Ord)]
 pub struct AzksParallelismConfig {
